@@ -33,14 +33,17 @@ def handle (op : String) (j : Json) : Option (R Json) :=
       let opd ← getFloats j "opd"
       let segs ← (← getArr j "segs").mapM fun s => do
         let m ← getFloats s "mask"; let t ← getFloats s "t"
-        pure (realGet sh[1]! m, t[0]!, t[1]!)
+        pure (realGet sh[1]! m, (fun (k : Int) => t[k.toNat]!))
       let og := realGet sh[1]! opd
+      let indexed : List (Int × (Int → Int → Float) × (Int → Float)) :=
+        (List.range segs.size).map fun (k : Nat) => ((k : Int), segs[k]!.1, segs[k]!.2)
       let res : Int → Int → Float :=
-        match segs.toList with
-        | [s] => fitTiltOpd sh[0]! sh[1]! px[0]! px[1]! s.1 og s.2.1 s.2.2
+        match indexed with
+        | [s] => fitTiltOpd sh[0]! sh[1]! px[0]! px[1]! s.2.1 og s.2.2
         | l => fitTiltOpdSeg sh[0]! sh[1]! px[0]! px[1]! l og
+      let recs := segs.toList.map fun s => if segs.size == 1 then fitRecordXY s.2 else fitSegRecordXY s.2
       let cells := (idxList sh[0]! sh[1]!).map fun (i, k) => floatToJson (res i k)
-      pure (okJ [("opd", Json.arr cells.toArray)])
+      pure (okJ [("opd", Json.arr cells.toArray), ("recorded", Json.arr (recs.map pairJ).toArray)])
   | _ => none
 
 end Ops.C04
